@@ -300,5 +300,10 @@ func (d Decimal) ToProtoDecimal() *dtpb.Decimal {
 
 // Round rounds a Decimal at the provided precision.
 func (d Decimal) Round(precision int32) Decimal {
+	if precision >= -decimal.Decimal(d).Exponent() {
+		// d has no digits beyond the requested precision: nothing to round
+		// (rescaling to a huge precision would otherwise never finish).
+		return d
+	}
 	return Decimal(decimal.Decimal(d).Round(precision))
 }
